@@ -848,5 +848,10 @@ pub fn run(rec: &mut Rec) {
     crate::special::c01_special(rec);
     crate::special::c01_special_ladder(rec);
     crate::special::c01_special_universes(rec);
+    // points on and near the Boolean hypercube
+    crate::special::hypercube::<SPst>(rec, "C01", &[2, 3]);
+    crate::special::hypercube::<SHyr>(rec, "C01", &[2, 4]);
+    crate::special::hypercube::<SMll>(rec, "C01", &[2, 3, 4]);
+    crate::special::hypercube::<SBrk>(rec, "C01", &[2, 3, 4]);
     slice_h_run(rec);
 }
